@@ -362,6 +362,39 @@ fn main() {
         eprintln!("family {} histories={} canonical={} exhaustive={} t={:.1}s", fam.name, h, c, !to, ctx.elapsed_s() - t0);
     }
 
+    // derived programs (de-duplication stress): every value-only program of at most two calls,
+    // emitted twice over aliased inputs, the copy pinned to a public input, three consumers
+    let derived_done = AtomicU64::new(0);
+    {
+        use vpe1::enumerate::Family;
+        let base = Family {
+            name: "dupbase-k2-c0".into(),
+            value_kinds: vec![VK::Add, VK::Sub, VK::Mul, VK::MulAdd],
+            assert_kinds: vec![],
+            max_value_ops: 2,
+            max_asserts: 0,
+            max_pub: 3,
+            max_priv: 0,
+            consts: vec![2],
+            max_wide: 1,
+            wide_no_atoms: true,
+            sym_reduce: true,
+            stages: vec![],
+            assert_split: None,
+        };
+        let (s2, p2, st2) = (SeenSet::default(), SeenSet::default(), Stats::default());
+        explore::<F, F>(&base, &cs, &ctx, 0.9, &s2, &p2, &st2, &|_p, _m| {}, &|p, _m| {
+            let Some(q) = vpe1::prog::duplicate_with_aliases(p) else { return };
+            if let Some(o) = check_program(&q, &cs, &packs[0].1, false) {
+                derived_done.fetch_add(1, Ordering::Relaxed);
+                histo.add(&format!("derived_alias_dup/{}", o.stage));
+                if !matches!(o.stage, "ok" | "nosat" | "precondition" | "skipped") {
+                    record(&q, o, "default", &packs[0].1);
+                }
+            }
+        });
+    }
+
     // configuration sweep on the representatives
     use vpcore::rayon::prelude::*;
     let reps = reps.into_inner().unwrap();
@@ -443,6 +476,7 @@ fn main() {
         "state_definition": "a state is a builder program identified by the H1 snapshot; for every state with a satisfying input over the alphabet the real runner, prover and verifier are executed",
         "families": fam_reports,
         "exhaustive": all_exhaustive && sweep_complete && shapes_complete,
+        "derived_alias_duplicated_programs_checked": derived_done.load(Ordering::Relaxed),
         "horner_shape_sweep": {"chain_lengths": format!("1..={max_len}"), "surrounding_ops": ["none", "one sub after", "one add before + one sub after"], "alu_lanes": lanes_set, "packing_factors": k_set,
             "proved_and_verified": shape_done.load(Ordering::Relaxed), "planned": shape_jobs.len()},
         "programs_proved_default_config": proved.load(Ordering::Relaxed),
